@@ -87,11 +87,7 @@ def evaluate(chk, shard, ids, names, thorough):
 def run(chk):
     thorough = chk.tier == "thorough"
     cov = {"steps": {}}
-    forests = shapes.corpus(4 if thorough else 3)
-    if not thorough:
-        # quick: all shapes with <= 3 nodes and a fixed (seed-independent) sample of the 4-node shapes
-        four = [f for f in shapes.corpus(4) if sum(1 for _ in shapes.name_of(f) if _ in "rom") == 4]
-        forests = forests + four[::9]
+    forests = shapes.corpus_for(thorough)
     items = [("s%04d" % i, f) for i, f in enumerate(forests)]
     names = {sid: shapes.name_of(f) for sid, f in items}
     fmap = dict(items)
@@ -141,7 +137,7 @@ def run(chk):
         "checker_cmd": "cd lean && lake build %s" % MODULE, "trusted_base": TRUSTED_BASE, "forbidden_constructs": pr["forbidden_constructs"],
         "programs": len(items), "disagreements_checked": len(items) - kinds.get("ok", 0),
         "evaluations": ncases, "distinct_nontrivial": nontrivial, "exhaustive": bool(thorough),
-        "rule": "struct shapes of the property's grammar (forest of required/optional/repeated x leaf/group nodes, every sibling position, depth <= 3, leaf types rotated through the 8 primitives): ALL shapes with <= %s; for each: parquetgen run twice (determinism), compiled, and the generated writer/reader driven on structurally enumerated records at two page sizes: writer bytes = model, file validates (PQ.parseFile), entries = reference striping, read-back = input; non-trivial = distinct shape passing everything" % ("4 nodes (1209 shapes)" if thorough else "3 nodes (156) plus every 9th 4-node shape"),
+        "rule": "struct shapes of the property's grammar (forest of required/optional/repeated x leaf/group nodes, every sibling position, depth <= 3, leaf types rotated through the 8 primitives): ALL shapes with <= %s; for each: parquetgen run twice (determinism), compiled, and the generated writer/reader driven on structurally enumerated records at two page sizes: writer bytes = model, file validates (PQ.parseFile), entries = reference striping, read-back = input; non-trivial = distinct shape passing everything" % ("4 nodes (1209 shapes), all 4-node chains of three nested groups, every 12th 5-node shape and curated larger shapes" if thorough else "3 nodes (156), every 9th 4-node shape, a fixed sample of deeper/5-node shapes and curated larger shapes (three nested repeated groups, Person, Document)"),
         "samples": [names[items[i][0]] for i in (0, len(items) // 2, len(items) - 1)],
         "outcome_by_kind": kinds, "known_patterns_hit": len(hit),
         "tie": "per shape: generated program = instance of the generic model (exact writer bytes; reader results; independent validation)",
